@@ -7,15 +7,16 @@ def parse_tps(tps):
         raise IllegalTPS("need three components")
     board, who, move = bits
 
-    if not who in "12":
+    if who not in ("1", "2"):
         raise IllegalTPS("Current player must be either 1 or 2")
-    try:
-        ply = 2 * (int(move) - 1) + int(who) - 1
-    except ValueError:
+    if not (move.isascii() and move.isdigit()) or int(move) < 1:
         raise IllegalTPS("Bad move number: " + move)
+    ply = 2 * (int(move) - 1) + int(who) - 1
 
     squares = []
     rows = board.split("/")
+    if len(rows) < 3 or len(rows) > 8:
+        raise IllegalTPS("bad board size")
     for row in reversed(rows):
         rsq = parse_row(row)
         if len(rsq) != len(rows):
@@ -29,15 +30,22 @@ def parse_row(rtext):
     squares = []
     bits = rtext.split(",")
     for b in bits:
+        if not b:
+            raise IllegalTPS("empty square")
         if b[0] == "x":
             n = 1
             if len(b) > 1:
-                n = int(b[1:])
+                if len(b) != 2 or b[1] not in "12345678":
+                    raise IllegalTPS("bad empty-square count: " + b)
+                n = int(b[1])
             squares += [[]] * n
             continue
 
         stack = []
+        marked = False
         for c in b:
+            if marked:
+                raise IllegalTPS("capstone or standing must be on top")
             if c == "1":
                 stack.append(tak.Piece.cached(tak.Color.WHITE, tak.Kind.FLAT))
             elif c == "2":
@@ -47,6 +55,7 @@ def parse_row(rtext):
                     raise IllegalTPS("bare capstone or standing")
                 typ = tak.Kind.CAPSTONE if c == "C" else tak.Kind.STANDING
                 stack[-1] = tak.Piece.cached(stack[-1].color, typ)
+                marked = True
             else:
                 raise IllegalTPS("bad character: " + c)
 
